@@ -43,6 +43,22 @@ Definition chain_obs (ms : list ((N * list file * str) * bool)) (qs folders : li
   ++ map (fun f => flat_map (fun x => [fst x; snd (snd x)]) (chain_walk_mode chain_dedup_mode chain_relmode chain_dedup_ops (ordered c chain_walk_forward) f)) folders.
 '''
 
+INSTANCE_THEOREM = '''Import ListNotations.
+Definition gen_member (m : member) : Prop :=
+  exists b fs p, In b [virtual_cfg; zip_cfg; vpk_cfg] /\\ m = member_of b fs p /\\ clean_fs fs = true /\\ okp p.
+Theorem today_chain_walk_lookup_closed : forall ms folder x,
+  Forall gen_member ms -> okp folder ->
+  In x (chain_walk_mode chain_dedup_mode chain_relmode chain_dedup_ops ms folder) ->
+  chain_get ms (fst x) = Some (snd x).
+Proof.
+  intros ms folder x Hms Hf Hin.
+  apply (c19_chain_walk_lookup_closed chain_dedup_ops ms folder x); [vm_compute; reflexivity| |exact Hf|exact Hin].
+  eapply Forall_impl; [|exact Hms]. intros m [b [fs [p [Hb [-> [Hc Hp]]]]]]. exists b, fs, p.
+  split; [reflexivity|]. destruct Hb as [<-|[<-|[<-|[]]]]; (split; [vm_compute; reflexivity|]); (split; [vm_compute; reflexivity|]); split; assumption.
+Qed.
+Print Assumptions today_chain_walk_lookup_closed.
+'''
+
 BACKENDS = ['virtual', 'zip', 'vpk', 'raw']
 FOLDERS = ['mat', 'materials', 'Materials', 'sub', 'Sub', 'a', 'A', 'deep', 'models', '.git', 'maps']
 FILES = ['x.txt', 'X.TXT', 'a.vmt', 'wall.vmt', 'Wall.VMT', 'noext', '.dot', 'mat', 'readme.md', 'x.txt.bak', 'a.b.c', 'sub']
@@ -893,6 +909,13 @@ def run(ck: Ck) -> None:
         obs['chain_dedup_keeps_first_member'] = 'match chain_dedup_mode with DedupSkip => true | DedupOverwrite => false end'
         obs['chain_walk_names_relative_to_prefix'] = 'match chain_relmode with RelDropSegs => true | RelPath => false end'
         ck.instance_obligations(IMPORTS, obs)
+        # the composition theorem instantiated at the generated configuration (type-checks only if today's chain
+        # de-duplicates by skipping, lists prefix-relative names and every backend form is sound)
+        rc, out = ck.coq_scratch(''.join(f'Require Import {i}.\n' for i in IMPORTS + ['SV.SM.FsChainProofs', 'SV.SM.FsChainCompose', 'SV.Props.C19'])
+                                 + INSTANCE_THEOREM, 'inst_compose', 300)
+        ck.obligation('instance-theorem:chain_walk_lookup_closed', rc == 0,
+                      'c19_chain_walk_lookup_closed applied to chain_walk_mode chain_dedup_mode chain_relmode chain_dedup_ops over '
+                      'members built from virtual_cfg / zip_cfg / vpk_cfg' + ('' if rc == 0 else ': ' + out[-400:]))
         import time as _t
         t0 = _t.time(); corr_backends(ck, root); t1 = _t.time(); corr_chain(ck, root); t2 = _t.time()
         ck.extra['stage_seconds'] = {'corr_backends': round(t1 - t0, 1), 'corr_chain': round(t2 - t1, 1)}
